@@ -12,6 +12,7 @@
        obtained from GetTracts; a Create reaches a tractserver only while its tract is not durable yet; an
        AckExtend names the consecutive tracts ExtendBlob handed out and hosts that all accepted the creating
        write's part of the tract;
+     - a curator task is started under a fresh positive id;
      - no injected probe RPC (event 17);
      - the F21 carve-out: no SUPERSEDED PullTract takes effect, i.e. no PullTract whose requested version is
        already committed (<= the durable version) executes at a server whose copy is absent or at a version
@@ -100,6 +101,11 @@ Definition ok_ev (L : Z) (st : state) (ev : list Z) : bool :=
             match find_op (s_ops st) op with None => true | Some _ => false end &&
             match op_of_client (s_ops st) cli with None => true | Some _ => false end
         | _ => true
+        end
+      else if (c =? 5) || (c =? 6) then
+        match a with
+        | op :: _ => (0 <? op) && match find_task (s_tasks st) op with None => true | Some _ => false end
+        | [] => true
         end
       else if c =? 7 then
         match a with
